@@ -4,6 +4,8 @@ from vlib.gen import Unit, Fn, Adt, Raw
 M = "crates/compiler/src/mono.rs"
 TM = "<'a> TypeMono<'a>"
 KEEP = "final(self).enum_base == old(self).enum_base, final(self).struct_base == old(self).struct_base,"
+WF = "twf({t}, old(self).enum_base, old(self).struct_base)"
+BOTH = "#[verifier::exec_allows_no_decreases_clause]\n#[verifier::loop_isolation(false)]"
 
 
 def minv(k, src):
@@ -12,15 +14,29 @@ def minv(k, src):
             f"decreases {src}.len() - __mi{k},")
 
 
+# clones of identifiers / strings / types go through view-preserving shims (derived Clone is an identical copy)
+CLONES = [(re.compile(r"\bg\.0\.clone\(\)"), "string_clone(&g.0)", "*"),
+          (re.compile(r"\ba\.clone\(\)"), "ty_clone(a)", "*"),
+          (re.compile(r"\b(vname|fname)\.clone\(\)"), r"ident_clone(&\1)", "*"),
+          (re.compile(r"\bnew_name\.clone\(\)"), "ident_clone(&new_name)", "*")]
+
+ZIP_INV = ("invariant __zk{k} <= generic_def.generics@.len(), __zk{k} <= args@.len(), self.enum_base == old(self).enum_base, self.struct_base == old(self).struct_base,\n"
+           "  binds_params(subst@, generic_def.generics@, args@, __zk{k} as int),\n"
+           "decreases generic_def.generics@.len() - __zk{k},")
+KEEPINV = "self.enum_base == old(self).enum_base, self.struct_base == old(self).struct_base,"
+
 UNIT = Unit(
     name="U-TMONO",
     properties=["C07"],
-    rules=["attrs", "fmtmsg", ("strip", "tast::"), "iter_map_collect"],
-    describe="mono::TypeMono::collapse_type_apps: the result contains no application of a generic enum/struct anywhere in the type "
-             "(under tuples, functions, arrays, references AND vectors) — types are fully specialised after monomorphisation; no panic",
-    trusted=["TypeMono::ensure_instance is a contract-only stub here (it returns some identifier and leaves the generic definitions unchanged)",
-             "termination of the collapse_type_apps / ensure_instance recursion is NOT claimed (it fails for polymorphically recursive types, DESIGN.md §5)",
-             "input types are assumed to have plain enum/struct names as application heads (apps_wellformed)"],
+    rules=["attrs", "fmtmsg", "msg_to_string", ("strip", "tast::"), "iter_map_collect", "for_zip", "for_into_iter"],
+    describe="mono::TypeMono: collapse_type_apps leaves no application of a generic enum/struct anywhere in the type (tuples, functions, arrays, "
+             "references and vectors: fully specialised types); ensure_instance builds an instance by binding the definition's parameters to "
+             "EXACTLY the instantiation arguments (the table key), never reaches its arity panic!, and only ever hands well-formed types on; "
+             "the generic definitions are never modified",
+    trusted=["termination of the collapse_type_apps / ensure_instance recursion is NOT claimed (it fails for polymorphically recursive types, DESIGN.md §5)",
+             "input types and generic definitions are assumed well formed (twf / defs_ok: plain names as application heads, declared arity, distinct "
+             "parameter names) — that is the typer's job",
+             "mono::subst_ty is a stub that preserves well-formedness (assumed); the instance table and monoenv are opaque (their contents are not specified)"],
     items=[
         Adt(file="crates/compiler/src/tast.rs", kw="enum", name="Ty", rules=["attrs"]),
         Adt(file="crates/compiler/src/tast.rs", kw="struct", name="TastIdent", rules=["attrs"]),
@@ -30,17 +46,40 @@ UNIT = Unit(
             rewrites=[("IndexMap<(String, Vec<Ty>), TastIdent>", "InstMap"), ("IndexMap<TastIdent, EnumDef>", "DefMap<EnumDef>"),
                       ("IndexMap<TastIdent, StructDef>", "DefMap<StructDef>")]),
         Raw(path="contracts/tmono.shim.rs"),
-        Fn(file=M, name="ensure_instance", container="TypeMono", as_method_of=TM, ret="r", contract_only=True,
-           rewrites=[("args: &[Ty]", "args: &Vec<Ty>")],
-           contract=f"ensures {KEEP}"),
-        Fn(file=M, name="collapse_type_apps", container="TypeMono", as_method_of=TM, ret="r",
-           attrs="#[verifier::exec_allows_no_decreases_clause]\n#[verifier::loop_isolation(false)]",
+        Fn(file=M, name="ensure_instance", container="TypeMono", as_method_of=TM, ret="r", attrs=BOTH,
+           obligation="the instance's substitution binds each parameter of the generic definition to exactly the corresponding instantiation argument; "
+                      "arity panic unreachable; types handed to collapse_type_apps are well formed",
+           rewrites=[("args: &[Ty]", "args: &Vec<Ty>"),
+                     ("let key = (name.to_string(), args.to_vec());", "let key = key_of(name, args);"),
+                     ("return u.clone();", "return ident_clone(u);"),
+                     ("TastIdent::new(&rt_msg())", "tast_ident_new(rt_msg().as_str())"), ("TastIdent::new(name)", "tast_ident_new(name)"),
+                     ("self.map.insert(key.clone(), new_name.clone());", "self.map.insert(key_clone(&key), ident_clone(&new_name));"),
+                     ("generic_def.variants.clone()", "enumdef_variants_clone(generic_def)"),
+                     ("generic_def.fields.clone()", "structdef_fields_clone(&generic_def)"),
+                     ("self.struct_base.get(&ident).cloned()", "(match self.struct_base.get(&ident) { Some(__d) => Some(structdef_clone(__d)), None => None })"),
+                     ("let mut subst: IndexMap<String, Ty> = IndexMap::new();", "let mut subst: IndexMap<String, Ty> = IndexMap::<String, Ty>::new();", 2),
+                     ] + CLONES,
+           contract=f"""requires old(self).defs_ok(),
+            forall|i: int| 0 <= i < args@.len() ==> {WF.format(t='#[trigger] args@[i]')},
+            arity_of(name@, old(self).enum_base, old(self).struct_base) matches Some(n) ==> args@.len() == n,
+        ensures {KEEP}""",
+           ghost=[("@entry", "", "proof { broadcast use subst_ty_twf; }")],
+           loops={0: ZIP_INV.format(k=0),
+                  1: f"invariant {KEEPINV} binds_params(subst@, generic_def.generics@, args@, args@.len() as int),\n"
+                     f"  forall|i: int, j: int| 0 <= i < __iv0@.len() && 0 <= j < __iv0@[i].1@.len() ==> {WF.format(t='#[trigger] __iv0@[i].1@[j]')},\n decreases __iv0@.len(),",
+                  2: f"invariant {KEEPINV} binds_params(subst@, generic_def.generics@, args@, args@.len() as int),\n"
+                     f"  forall|j: int| 0 <= j < __iv1@.len() ==> {WF.format(t='#[trigger] __iv1@[j]')},\n"
+                     f"  forall|i: int, j: int| 0 <= i < __iv0@.len() && 0 <= j < __iv0@[i].1@.len() ==> {WF.format(t='#[trigger] __iv0@[i].1@[j]')},\n decreases __iv1@.len(),",
+                  3: ZIP_INV.format(k=1),
+                  4: f"invariant {KEEPINV} binds_params(subst@, generic_def.generics@, args@, args@.len() as int),\n"
+                     f"  forall|i: int| 0 <= i < __iv2@.len() ==> {WF.format(t='(#[trigger] __iv2@[i]).1')},\n decreases __iv2@.len(),"}),
+        Fn(file=M, name="collapse_type_apps", container="TypeMono", as_method_of=TM, ret="r", attrs=BOTH,
            obligation="no application of a generic enum/struct remains anywhere in the result (fully specialised types)",
            rewrites=[("base.get_constr_name_unsafe()", "get_constr_name_unsafe(base)"), ("TastIdent::new(&base_name)", "tast_ident_new(base_name.as_str())"),
                      (re.compile(r"name: new_u\.0\.clone\(\)"), "name: string_clone(&new_u.0)", 2),
                      (re.compile(r"name: name\.clone\(\)"), "name: string_clone(name)", 2),
                      ("_ => ty.clone(),", "_ => ty_clone(ty),")],
-           contract=f"""requires apps_wellformed(*ty),
+           contract=f"""requires old(self).defs_ok(), {WF.format(t='*ty')},
         ensures collapsed(r, old(self).known()), {KEEP}
             (*ty is TEnum || *ty is TStruct) ==> r == *ty,""",
            loops={0: minv(0, "args"), 1: minv(1, "args"), 2: minv(2, "typs"), 3: minv(3, "params")}),
